@@ -10,10 +10,11 @@ import TypelibModel.Drv.Slotted
 import TypelibModel.Drv.Graph
 import TypelibModel.Drv.Inspect
 import TypelibModel.Drv.Cache
+import TypelibModel.Drv.Routine
 open Lean Typelib.Drv
 
 def handlers : List (St → String → Json → Option (Except String (St × Json))) :=
-  [handleCore, handleBinding, handleFuture, handleCtx, handleSlotted, handleGraph, handleInspect, handleCache]
+  [handleCore, handleBinding, handleFuture, handleCtx, handleSlotted, handleGraph, handleInspect, handleCache, handleRoutine]
 
 def step (st : St) (line : String) : St × String :=
   match Json.parse line with
